@@ -10,7 +10,7 @@ PROP = "C12"
 LEVEL = "exploration"
 RULE = ("probe_xcp (a library client written as the crate documentation shows) copies seeded trees under the ptrace supervisor: "
         "drivers x workers x block sizes x updaters {ChannelUpdater drained live or after copy(), NoopUpdater, a client-supplied "
-        "recording updater} x schedules (walker-first: Size far ahead; workers-first: Copied as early as possible; main-late; pct; "
+        "recording updater, the same failing from its k-th update on} x schedules (walker-first: Size far ahead; workers-first: Copied as early as possible; main-late; pct; "
         "jitter) x I/O policies (short copy_file_range, refused copy_file_range with short read/write, a failed call). Every update "
         "is announced by a marker system call, so it has a position in the supervisor's total order. Oracle: sum(Size) == total "
         "length of the selected regular files when copy() succeeded; every prefix of the stream has sum(Copied) <= sum(Size); at "
@@ -88,6 +88,11 @@ def gen_cases(tier, seed):
         onecpu = r.random() < 0.08
         # the same source named twice by the client: it is to be copied (and announced) once
         dupsrc = pol in ("none", "cfr-short") and not deref and r.random() < 0.25
+        # a client-supplied updater that fails: from its k+1st update on send() answers Err (its consumer has gone away). The call has to
+        # return all the same, and an incomplete destination has to come with an Err
+        r2 = random.Random(seed * 7919 + i)
+        if upd == "record" and pol != "vanish" and r2.random() < 0.2:
+            upd = "flaky:%d" % r2.choice([0, 1, 2, 3, 5, 8, 13, 20, 40, 90])
         yield {"dupsrc": dupsrc, "mount": mount, "vanish": vanish, "onecpu": onecpu, "deref": deref, "spec": spec, "driver": driver, "updater": upd, "mode": mode, "bs": bs, "workers": 0 if onecpu or r.random() < 0.05 else r.choice([1, 2, 4, 8]), "policy": pol, "rules": rules,
                "plan": sch, "fs": "ext4"}
     # a source whose length is reported as 0 although it has content (the kernel's own files): whatever is announced for it, no more
@@ -265,7 +270,7 @@ def _run_case_body(case, sb, res):
         run = core.run_supervised(sb, argv, plan)
         if run.verdict == "deadlock":
             # (every thread blocked in a call without a timeout, nothing moving: not a matter of patience)
-            res["viol"].append({"sig": "%s:%s:never-ends" % (case["driver"], case["updater"]), "what": "copy() never returned and the stream never ended: %s; %s/%s/%s w=%d policy=%s"
+            res["viol"].append({"sig": "%s:%s:never-ends" % (case["driver"], case["updater"].split(":")[0]), "what": "copy() never returned and the stream never ended: %s; %s/%s/%s w=%d policy=%s"
                                 % (run.summary.get("detail", "")[:300], case["driver"], case["updater"], case["mode"], case["workers"], case["policy"])})
             return res
         if run.verdict != "exited":
@@ -285,7 +290,8 @@ def _run_case_body(case, sb, res):
             res["inconc"].append("probe-no-result")
             return res
         tag = "%s/%s/%s bs=%d w=%d sched=%s policy=%s" % (case["driver"], case["updater"], case["mode"], case["bs"], case["workers"], case["plan"]["sched"], case["policy"])
-        sig0 = "%s:%s" % (case["driver"], case["updater"])
+        sig0 = "%s:%s" % (case["driver"], case["updater"].split(":")[0])
+        flaky = case["updater"].startswith("flaky:")
         post = tree.snapshot(root)
         mapping, _ = model.map_sources(pre, root, ["src"], "dst")
         files = [m for m in mapping if m["rec"]["k"] == "f"]
@@ -306,7 +312,10 @@ def _run_case_body(case, sb, res):
         if case["updater"] != "noop":
             ssum = sum(j["v"] for j in stream if j["t"] == "size")
             # (1)
-            if result["ok"] and not got_error and ssum != total and not (case.get("deref") and link_loop):
+            if flaky:
+                res["counters"]["runs-with-a-failing-client-updater"] = 1
+                res["counters"]["failing-updater-refusals-seen"] = sum(1 for ev in run.events if ev.get("ph") == "E" and ev["sys"] == "write" and ev.get("fd") == 999 and ev.get("data", "").startswith("F refused"))
+            if result["ok"] and not got_error and ssum != total and not (case.get("deref") and link_loop) and not flaky:
                 res["viol"].append({"sig": sig0 + ":size-sum", "what": "sum of Size updates %d != total length of selected regular files %d; %s" % (ssum, total, tag)})
             # (2) prefix: copied <= announced
             s = c = 0
@@ -335,14 +344,14 @@ def _run_case_body(case, sb, res):
                                                 % (ev["seq"], reported, transferred, tag)})
                             break
             # (4') nothing is sent once copy() has returned (the recording updater announces each send as it happens)
-            if case["updater"] == "record":
+            if case["updater"] == "record" or flaky:
                 returned = None
                 for ev in run.events:
                     if ev.get("ph") == "E" and ev["sys"] == "write" and ev.get("fd") == 999 and "data" in ev:
                         if ev["data"].startswith("C returned"):
                             returned = ev["seq"]
                             res["counters"]["return-markers"] = 1
-                        elif returned is not None and ev["data"].startswith("U "):
+                        elif returned is not None and ev["data"][:2] in ("U ", "F "):
                             res["viol"].append({"sig": sig0 + ":update-after-return", "what": "update '%s' was sent (seq %d) after copy() had returned (seq %d): the stream had not ended when the call finished; result %s; %s"
                                                 % (ev["data"][2:], ev["seq"], returned, "Ok" if result["ok"] else "Err(" + result["err"][:60] + ")", tag)})
                             break
@@ -353,7 +362,7 @@ def _run_case_body(case, sb, res):
         outcome = "ok" if result["ok"] and not got_error else "error"
         res["counters"]["copy-" + outcome] = 1
         res["counters"]["dest-incomplete"] = int(incomplete)
-        res["evals"].append({"key": [case["driver"], case["updater"], case["mode"], "np" if case["bs"] > 1 << 40 else case["bs"], case["plan"]["sched"], case["policy"], outcome],
+        res["evals"].append({"key": [case["driver"], case["updater"].split(":")[0], case["mode"], "np" if case["bs"] > 1 << 40 else case["bs"], case["plan"]["sched"], case["policy"], outcome],
                              "sample": {"argv": argv[1:], "sched": case["plan"], "policy": case["rules"], "updates": stream[:8], "n_updates": len(stream), "result": result,
                                         "total_bytes": total}})
     return res
